@@ -95,13 +95,13 @@ class TlcResult:
         self.error = None       # text of the first "Error:" block
         self.violated = None    # name of violated invariant / property
         self.output = ""
-        self.actions = {}       # action name -> (taken, distinct)
+        self.actions = {}       # action name -> (distinct states found, states generated)
         self.wall = 0.0
         self.printed = []       # lines printed by PrintT (raw)
         self.timeout = False
 
 
-_ACTION_RE = re.compile(r"^<(\w+) line \d+, col \d+ to line \d+, col \d+ of module (\w+)>: (\d+):(\d+)")
+_ACTION_RE = re.compile(r"^<(\w+) line \d+, col \d+ to line \d+, col \d+ of module (\w+)(?: \([\d ]+\))?>: (\d+):(\d+)")
 
 
 def run_tlc(module, cfg_text, workdir, workers=None, env=None, timeout=1800, simulate=None,
@@ -152,6 +152,8 @@ def run_tlc(module, cfg_text, workdir, workers=None, env=None, timeout=1800, sim
     err_lines = []
     in_err = False
     for line in out.splitlines():
+        if line.startswith("The coverage statistics at"):
+            res.actions = {}   # interim dumps are superseded by the final one
         m = _ACTION_RE.match(line)
         if m:
             name = m.group(1)
@@ -250,7 +252,7 @@ class Run:
                               "depth": res.depth, "wall_s": round(res.wall, 1), "ok": res.ok})
         if require_actions:
             for a in require_actions:
-                if res.actions.get(a, (0, 0))[0] == 0:
+                if res.actions.get(a, (0, 0))[1] == 0:
                     raise ToolError("vacuity guard: action %s of %s was never taken" % (a, name))
 
     def spec_must_hold(self, name, res):
@@ -349,7 +351,7 @@ def sha(s):
     return hashlib.sha256(s.encode()).hexdigest()[:16]
 
 
-def validate_trace(module, trace_path, constants, name, shards=8, timeout=1800, xmx="3g"):
+def validate_trace(module, trace_path, constants, name, shards=8, timeout=1800, xmx="3g", boundary=None):
     """impl -> spec: run the trace specification `module` over an ndjson trace.  The trace is cut
     into shards (records are independent or delimited by the caller), each validated by a
     single-worker TLC.  Returns (accepted, rejected_indices (0-based, global), tlc results)."""
@@ -361,11 +363,19 @@ def validate_trace(module, trace_path, constants, name, shards=8, timeout=1800, 
         raise ToolError("empty trace " + trace_path)
     shards = max(1, min(shards, (n + 199) // 200))
     per = (n + shards - 1) // shards
+    # cut points: every `per` lines, moved forward to the next boundary record (stateful traces)
+    cuts = [0]
+    for k in range(1, shards):
+        c = max(k * per, cuts[-1])
+        if boundary is not None:
+            while c < n and boundary not in lines[c]:
+                c += 1
+        if c < n and c > cuts[-1]:
+            cuts.append(c)
+    cuts.append(n)
     jobs = []
-    for k in range(shards):
-        part = lines[k * per:(k + 1) * per]
-        if not part:
-            continue
+    for k in range(len(cuts) - 1):
+        part = lines[cuts[k]:cuts[k + 1]]
         d = fresh_dir(name, "shard%d" % k)
         tp = os.path.join(d, "trace.ndjson")
         with open(tp, "w") as fh:
@@ -381,15 +391,19 @@ def validate_trace(module, trace_path, constants, name, shards=8, timeout=1800, 
     with ThreadPoolExecutor(max_workers=min(len(jobs), NCPU)) as ex:
         results = list(ex.map(one, jobs))
     rejected = []
+    reasons = {}
     tlcs = []
     for (k, d, tp, cnt), res in results:
         tlcs.append(res)
-        rej = [int(m.group(1)) for m in re.finditer(r'<<"REJECT", (\d+)>>', res.output)]
+        rej = [(int(m.group(1)), m.group(2) or "") for m in re.finditer(r'<<"REJECT", (\d+)(?:, "([^"]*)")?>>', res.output)]
         inc = re.search(r'<<"INCOMPLETE", (\d+)>>', res.output)
         if res.timeout:
             raise ToolError("trace validation %s shard %d timed out" % (name, k))
         if inc or res.distinct != cnt + 1 or (res.error and "postcondition" not in (res.error or "").lower()):
             raise ToolError("trace validation %s shard %d did not consume its trace (%d of %d):\n%s" % (
                 name, k, res.distinct - 1, cnt, res.error or res.output[-2000:]))
-        rejected += [k * per + (i - 1) for i in rej]
+        for i, why in rej:
+            rejected.append(cuts[k] + (i - 1))
+            reasons[cuts[k] + (i - 1)] = why
+    validate_trace.reasons = reasons
     return n - len(rejected), sorted(rejected), tlcs, lines
